@@ -16,6 +16,36 @@ CHECKS = {
         text="Exhaustive within the bound: every history of <=4 (quick) / <=5 (thorough) distinct headers over all tree shapes, orphan patterns, arrival orders and a 2-4 value difficulty alphabet incl. zero/negative targets; every visited store is checked (labels, tip, HTTP cross-read, re-submission, forbidden list) against the model. Histories beyond the bound and random generation are not covered.",
         design="§3 C01",
     ),
+    "C02": dict(
+        engine="storewalk",
+        technique="explicit-state search over reachable header stores (every arrival order of every subset of every blueprint); in every store the complete product (stored roots + unknown) x (heights -1..tip+excess+2, MaxInt32) x excess {0,1,6} is verified through the service and POST /chain/merkleroot/verify, oracle = reference tree",
+        text="Exhaustive within the bound (N<=4 quick, reorg-capable N=5 thorough): every store reachable by ingestion incl. post-reorg stores and stale/orphan headers sharing a height with longest ones; per store every (root, height, excess) verdict, list order, per-item independence (all ordered pairs of verdict-class representatives incl. duplicates) and the aggregate. Lists longer than the full product and other excess values are not covered.",
+        design="§3 C02",
+    ),
+    "C03": dict(
+        engine="storewalk",
+        technique="explicit-state search over reachable header stores + complete 5x5x5x5x3x3 boundary-value product of header fields; every stored row compared with an independent SHA-256d/80-byte serialiser and big.Int work derivation; column immutability checked across every transition and across restart (database.Init on the same file)",
+        text="Exhaustive within the bound: every history of <=4/5 headers; every stored header's derived and source fields via SQL dump, service and both JSON endpoints; nothing but header_state changes on any transition; 5625 boundary-valued headers round-trip through Add, SQL and JSON, again after a restart. Field values outside the boundary alphabet are not covered.",
+        design="§3 C03",
+    ),
+    "C04": dict(
+        engine="storewalk",
+        technique="explicit-state search over reachable header stores; in every store the complete argument product of every read route (all stored hashes + unknown/malformed, all height/count windows, all ordered ancestor pairs, all common-ancestor subsets of size <=3) is served by the production gin engine and compared with answers computed on the reference tree; table digest before/after",
+        text="Exhaustive within the bound (N<=4 quick, N=5 equal-work thorough). Where arrival-time links and hash links disagree (a parent stored after its child) both readings are accepted; where the statement defines no answer (no common ancestor) only C16 judges the status.",
+        design="§3 C04, §3a",
+    ),
+    "C08": dict(
+        engine="storewalk",
+        technique="explicit-state search over reachable header stores; in every store every (batch size 0..len+2) x (start key: empty, every stored root incl. stale/orphan, unknown) page and every complete multi-page walk is served by GET /chain/merkleroot and compared with the reference longest chain",
+        text="Exhaustive within the bound (N<=4 quick, N=5 thorough). Walks interleaved with ingestion are covered by decomposition: a page depends only on (store, key) and every (reachable store, stored root) pair is enumerated, including roots a reorganisation moved off the chain (409 expected).",
+        design="§3 C08",
+    ),
+    "C13": dict(
+        engine="storewalk",
+        technique="explicit-state search over reachable header stores; in every store LatestHeaderLocator and every getheaders request (all locators of length 0-2 quick / 0-3 thorough over stored+unknown hashes, every stop) through LocateHeadersGetHeaders and LocateHeaders; plus three long stores (2005, 4100, 2100+stale branch) built by real Adds with locators/stops at the 2000-cap and step-pattern boundaries",
+        text="Exhaustive within the bound. An empty locator is accepted as either 'nothing' (the repository's own test pins an error) or the from-height-1 answer. The wire-level path (OnGetHeaders / handleGetHeadersMsg) is exercised by the netwalk engine, not here.",
+        design="§3 C13, §3a",
+    ),
 }
 
 NOT_YET = "check not built yet in this session (work in progress; see DESIGN.md §7 for the order of work)"
